@@ -37,7 +37,7 @@ def run(ctx):
         # every kind x position x protocol stays; transports / framings rotate
         keep = []
         for i, a in enumerate(d['attacks']):
-            if a['framing'] != 'plain' or a['transport'] == 'wsgi' or (i + ctx.seed) % 2 == 0:
+            if a['framing'] != 'plain' or a['transport'] == 'wsgi' or a['prot'] == 'schema' or (i + ctx.seed) % 2 == 0:
                 keep.append(a)
         d['attacks'] = keep
     json.dump(d, open(out, 'w'))
